@@ -30,6 +30,8 @@ type k2Batch struct {
 	Share    int
 	Race     bool
 	Spec     string // "structural": ask the driver to compare with Gv.Spec.specMap
+	Pkgs        map[string]string
+	TypeImports []string
 }
 
 type k2Call struct {
@@ -87,10 +89,17 @@ func runK2(e *env, name string, batches []*k2Batch) (*k2Result, error) {
 			if strings.Contains(kb.Extra, "rt.") {
 				imports = "import \"" + module + "/rt\"\n\n"
 			}
+			timports := ""
+			if len(kb.TypeImports) > 0 {
+				timports = "import (\n\t" + strings.ReplaceAll(strings.Join(kb.TypeImports, "\n\t"), "MODULE", module) + "\n)\n\n"
+			}
 			tree := scratch.Tree{"go.mod": "module " + module + "\n\ngo 1.18\n",
-				"p/types.go":  "package p\n\nvar VerifAnchor = 0\n\n" + kb.Types,
+				"p/types.go":  "package p\n\n" + timports + "var VerifAnchor = 0\n\n" + kb.Types,
 				"p/conv.go":   "package p\n\n" + convs.String(),
 				"p/custom.go": "package p\n\n" + imports + kb.Extra}
+			for k, v := range kb.Pkgs {
+				tree[k] = strings.ReplaceAll(v, "MODULE", module)
+			}
 			for k, v := range k2.SupportFiles(module) {
 				tree[k] = v
 			}
